@@ -265,6 +265,30 @@ def parse_markup(parts):
                     elements[-1]['text_dyn'].append(p)
                 else:
                     elements.append({'tag': '#text', 'attrs': {}, 'opt': True, 'text_dyn': [p], 'node': p[3]})
+            elif ch == ' ' or (ch.isalpha() and (pos == 0 or text[pos - 1] in ' \n"\x00')):
+                # an attribute written outside any start tag of this function: a fragment that the caller places
+                # inside its own start tag (e.g. ValueType::dump inside <token ...>)
+                m = re.compile(r' ?([A-Za-z_][\w:.-]*)=(["\'])').match(text, pos)
+                if m:
+                    name, q = m.group(1), m.group(2)
+                    end = m.end()
+                    vals = []
+                    while end < n and text[end] != q:
+                        if text[end] == PH:
+                            vals.append(part_at(end))
+                        end += 1
+                    if end < n:
+                        orphan = None
+                        for e_ in elements:
+                            if e_['tag'] == '#orphan':
+                                orphan = e_
+                        if orphan is None:
+                            orphan = {'tag': '#orphan', 'attrs': {}, 'opt': True, 'text_dyn': [], 'node': None}
+                            elements.append(orphan)
+                        p0 = part_at(pos)
+                        orphan['attrs'][name] = {'dyn': vals, 'lit': text[m.end():end].replace(PH, ''), 'opt': True, 'closed': True}
+                        pos = end + 1
+                        continue
             pos += 1
             continue
         # inside a start tag
